@@ -728,7 +728,7 @@ def _trace_to_jaxpr(
     def _wrapped(*xs: Any) -> Any:
         return fn(*xs, **frozen_params)
 
-    with _activate_plugin_worlds():
+    with ps2._conversion_trace_context(), _activate_plugin_worlds():
         closed = jax.make_jaxpr(_wrapped)(*sds_list)
     if os.environ.get("J2O_PRINT_JAXPR", "0") == "1":
         try:
